@@ -106,6 +106,8 @@ pub fn explorer_plan(prop: &str, thorough: bool) -> Option<Plan> {
             // a few large dimensions too: leaves beyond one LMDB page (overflow pages), several quantised words
             p.dims.extend_from_slice(&[257, 1030]);
             p.p_variant_overwrite = 0.12;
+            // the item store does not depend on the forest: also forests of zero trees (explicit n_trees(0))
+            p.n_trees.push(Some(0));
             p.p_append = 0.08;
             p.p_clear = 0.02;
             p.p_midcommit = 0.05;
@@ -157,9 +159,9 @@ pub fn explorer_plan(prop: &str, thorough: bool) -> Option<Plan> {
             Plan {
                 profile: p,
                 cases: (8000, 120000),
-                required: &["isolation_dumps_compared", "isolation_foreign_entries", "op_clear", "op_change_metric", "builds_ok"],
+                required: &["isolation_dumps_compared", "isolation_foreign_entries", "op_clear", "op_change_metric", "builds_ok", "isolation_answers_compared"],
                 custom_gen: None,
-                rule: "case = explorer history over 2-4 indexes (adjacent numbers, 0/1/255/256/65534/65535, random; per-index metric; ids at the u32 edges); around every operation the raw dump restricted to the other indexes' prefixes is compared byte for byte; non-trivial+distinct = distinct (operation kind, effect, index state, metric, size class) situations plus distinct forest shapes with splits of the operated indexes",
+                rule: "case = explorer history over 2-4 indexes (adjacent numbers, 0/1/255/256/65534/65535, random; per-index metric; ids at the u32 edges); around every operation the raw dump restricted to the other indexes' prefixes is compared byte for byte, and one other searchable index is asked a fixed query under 8 limited budgets (around the database's entry count, and half its item count) before and after: ids and distance bits must not change; non-trivial+distinct = distinct (operation kind, effect, index state, metric, size class) situations plus distinct forest shapes with splits of the operated indexes",
             }
         }
         "C13" => {
